@@ -20,7 +20,7 @@ INPUTS = {
     "char": [b"ab{}c", b"q\nDDBEGIN\nabab\r\nDDEND\n"],
     "symbol": [b"a;b{c}d;", b"f(a){\n \n};g[1]=2;\n"],
     "jsstr": [b"x = 'ab\\x41' + \"c\";\n", b"'a' + 'a' + \"a\"\n"],
-    "attrs": [b"<a b=\"c\" d=e f><g h='i'>\n", b"<p a=1 a=1>\n"],
+    "attrs": [b"<a b=\"c\" d=e f><g h='i'>\n", b"<p a=1 a=1>\n", b"<img src=\"x\" alt='y' /><br/>\n<a b=cd"],
 }
 SMALL = {"line": [b"a\nb\n", b"a\na\nb\n", b"{\n\n}\n", b"{\na\nb\n}\n"], "char": [b"aba"], "symbol": [b"a;b;"], "jsstr": [b"'ab'"],
          "attrs": [b"<a b c>"]}
